@@ -23,6 +23,21 @@ def has_kind(t, kinds):
     return any(k in kinds for k in T.kinds_of(t))
 
 
+def sliced_unsafe(t, dx):
+    """region of the recorded finding sliced_drops_imag / sliced_casts_operand: a Sliced node over an all-real subtree
+    that can receive complex data (complex operand, or a complex leaf anywhere in the tree)"""
+    anyc = dx in T.CPLX or any(d in T.CPLX for d in leaf_dts(t))
+    found = []
+
+    def walk(x):
+        if x["k"] == "Sliced" and anyc and not any(d in T.CPLX for d in leaf_dts(x)):
+            found.append(1)
+        for y in (x.get("ms") or ([x["a"]] if isinstance(x.get("a"), dict) else [])):
+            walk(y)
+    walk(t)
+    return bool(found)
+
+
 def leaf_dts(t, acc=None):
     acc = acc if acc is not None else []
     if "dt" in t:
@@ -33,13 +48,27 @@ def leaf_dts(t, acc=None):
 
 
 def gen_cases(ctx, n_cases, gen, depth_max, bound=2 ** 20, accept=None):
-    """cases with operands; entries bounded so that float32 arithmetic is exact"""
+    """cases with operands; entries bounded so that float32 arithmetic is exact.
+    Streams: rooted kinds in rotation (every kind at the root, real / complex / mixed payloads), wide and 1xN / Nx1 shapes,
+    free random trees (uniform or mixed real/complex leaves)."""
     rnd = ctx.rng
     cases = []
     tries = 0
+    kinds_cycle = [k for k in T.LEAF + T.COMP if k in gen.kinds]
     while len(cases) < n_cases and tries < 50 * n_cases:
         tries += 1
-        if rnd.random() < 0.08:   # wide operators: the generic to_dense path multiplies the identity on the left
+        u = rnd.random()
+        if u < 0.25:
+            k = kinds_cycle[tries % len(kinds_cycle)]
+            mode = rnd.choice([False, True, "mix"])
+            if mode == "mix" and k in gen.mix_excl:
+                mode = rnd.choice([False, True])
+            t = T.rooted(gen, k, None, None, cplx=mode, depth=rnd.randint(1, 2))
+            if t is None:
+                continue
+        elif u < 0.40:
+            t = gen.tree(rnd.randint(1, depth_max), None, "mix")
+        elif rnd.random() < 0.08:   # wide operators: the generic to_dense path multiplies the identity on the left
             t = gen.tree(rnd.randint(0, 2), (1, rnd.randint(9, 12)))
         elif rnd.random() < 0.05:  # 1xN / Nx1
             t = gen.tree(rnd.randint(0, 2), rnd.choice([(1, rnd.randint(1, 5)), (rnd.randint(1, 5), 1)]))
